@@ -831,22 +831,28 @@ def run(repo, chk):
 
     # ---------------------------------------------------------------- R-C01-2 adjacency
     # get_links_for_node is evaluated on a fixture network (concrete registry, concrete links): what it returns decides, not how it is written
-    gfn, adj, typed, why = adjacency(repo)
-    chk.fn(gfn)
-    want = {"ALL": {"start_node_name", "end_node_name"}, "INLET": {"end_node_name"}, "OUTLET": {"start_node_name"}}
-    for flag in ("ALL", "INLET", "OUTLET"):
-        if flag not in adj:
-            chk.bad("R-C01-2", "get_links_for_node handles flag %s" % flag, loc(gfn), found=why.get(flag, sorted(k for k in adj if k)))
-            continue
-        chk.expect(typed.get(flag), "R-C01-2", "get_links_for_node(%s) keeps only link-typed usages" % flag, loc(gfn), found=why.get(flag))
-    consistent = adj.get("INLET") and adj.get("OUTLET") and len(adj["INLET"]) == 1 and len(adj["OUTLET"]) == 1 and adj["INLET"] != adj["OUTLET"] \
-        and adj.get("ALL") == {"start_node_name", "end_node_name"}
-    chk.expect(bool(consistent), "R-C01-2", "INLET and OUTLET select opposite ends and ALL both", loc(gfn), expected=want,
-               found="%s %s" % ({k: sorted(v) for k, v in adj.items() if k}, "; ".join("%s: %s" % (k, v) for k, v in why.items() if k)))
-    chk.expect(None in adj and adj[None] == adj.get("ALL") and typed.get(None) == typed.get("ALL"), "R-C01-2", "get_links_for_node without a flag means ALL", loc(gfn),
-               "callers that want every link of a node (parallel-link table of the isolation graph) leave the flag out", found=why.get(None, adj.get(None)))
-    sig_adj = 1 if adj.get("INLET") == {"end_node_name"} else (-1 if adj.get("INLET") == {"start_node_name"} else 0)
-    chk.sample({"rule": "R-C01-2", "adjacency": {str(k): sorted(v) for k, v in adj.items()}})
+    sig_adj = None
+    try:
+        gfn, adj, typed, why = adjacency(repo)
+        chk.fn(gfn)
+        want = {"ALL": {"start_node_name", "end_node_name"}, "INLET": {"end_node_name"}, "OUTLET": {"start_node_name"}}
+        for flag in ("ALL", "INLET", "OUTLET"):
+            if flag not in adj:
+                chk.bad("R-C01-2", "get_links_for_node handles flag %s" % flag, loc(gfn), found=why.get(flag, sorted(k for k in adj if k)))
+                continue
+            chk.expect(typed.get(flag), "R-C01-2", "get_links_for_node(%s) keeps only link-typed usages" % flag, loc(gfn), found=why.get(flag))
+        consistent = adj.get("INLET") and adj.get("OUTLET") and len(adj["INLET"]) == 1 and len(adj["OUTLET"]) == 1 and adj["INLET"] != adj["OUTLET"] \
+            and adj.get("ALL") == {"start_node_name", "end_node_name"}
+        chk.expect(bool(consistent), "R-C01-2", "INLET and OUTLET select opposite ends and ALL both", loc(gfn), expected=want,
+                   found="%s %s" % ({k: sorted(v) for k, v in adj.items() if k}, "; ".join("%s: %s" % (k, v) for k, v in why.items() if k)))
+        chk.expect(None in adj and adj[None] == adj.get("ALL") and typed.get(None) == typed.get("ALL"), "R-C01-2", "get_links_for_node without a flag means ALL", loc(gfn),
+                   "callers that want every link of a node (parallel-link table of the isolation graph) leave the flag out", found=why.get(None, adj.get(None)))
+        sig_adj = 1 if adj.get("INLET") == {"end_node_name"} else (-1 if adj.get("INLET") == {"start_node_name"} else 0)
+        chk.sample({"rule": "R-C01-2", "adjacency": {str(k): sorted(v) for k, v in adj.items()}})
+    except (Unknown, ExtractError) as e:
+        # the small registry model of this fixture could not run the method (e.g. it reads an attribute the constructor sets): this rule cannot decide; the
+        # interpreted history R-C01-2b above runs the method on a model made by the real constructor and decides on its own
+        chk.error("R-C01-2: %s: %s" % (type(e).__name__, e))
 
     # ---------------------------------------------------------------- R-C01-4 tank / reservoir demand, leak demand, flow copy
     sfn = repo.func(HYD, "store_results_in_network")
@@ -995,10 +1001,11 @@ def run(repo, chk):
             break
     hl = {s for b, s in sig_hl}
     mb = set().union(*sig_mb.values()) if sig_mb else set()
-    prod_ok = len(hl) == 1 and len(mb) == 1 and sig_adj != 0 and (list(hl)[0] * list(mb)[0] * sig_adj == 1)
-    chk.expect(prod_ok, "R-C01-3", "sign conventions agree: balance row x INLET/OUTLET adjacency x link-row orientation = +1", loc(CON),
-               "positive flow runs start->end, enters the END node, and is subtracted from the junction's demand as inflow; a single flip breaks conservation",
-               expected="+1", found="balance %s, adjacency %s, link rows %s" % (sorted(map(int, mb)), sig_adj, sorted(sig_hl)))
+    prod_ok = len(hl) == 1 and len(mb) == 1 and sig_adj not in (0, None) and (list(hl)[0] * list(mb)[0] * sig_adj == 1)
+    if sig_adj is not None:
+        chk.expect(prod_ok, "R-C01-3", "sign conventions agree: balance row x INLET/OUTLET adjacency x link-row orientation = +1", loc(CON),
+                   "positive flow runs start->end, enters the END node, and is subtracted from the junction's demand as inflow; a single flip breaks conservation",
+                   expected="+1", found="balance %s, adjacency %s, link rows %s" % (sorted(map(int, mb)), sig_adj, sorted(sig_hl)))
     chk.expect(len(sig_tank) == 1 and list(sig_tank)[0] * (list(mb)[0] if len(mb) == 1 else 0) == 1, "R-C01-3",
                "tank/reservoir net inflow uses the same INLET-positive convention as the junction rows", loc(sfn), found="tank %s, balance %s" % (sorted(sig_tank), sorted(map(int, mb))))
 
